@@ -43,6 +43,44 @@ type frame struct {
 	caller  *frame
 	callPos token.Pos
 	cutDone bool // loop-cut induction: the header has been havocked in this activation
+	loopSig map[*ssa.BasicBlock]loopSig
+}
+
+// loopSig: the state at a loop header when it was last reached through a back edge: the loop-carried SSA
+// values, the number of state-changing events and of nondeterministic inputs so far.  Reaching the header
+// again with the same signature means that the iteration changed nothing: a concrete run on this path
+// repeats it for ever (execution is deterministic), which is reported as non-termination.
+type loopSig struct {
+	vals    []Value
+	effects int
+	inputs  int
+}
+
+func sameValue(a, b Value) bool {
+	ta, ok1 := a.(*Term)
+	tb, ok2 := b.(*Term)
+	if ok1 && ok2 {
+		return ta == tb // hash-consed
+	}
+	return false
+}
+
+func (e *Exec) noProgress(f *frame, b *ssa.BasicBlock, vals []Value, pos token.Pos) {
+	sig := loopSig{vals: append([]Value{}, vals...), effects: e.effects, inputs: len(e.inputs)}
+	if f.loopSig == nil {
+		f.loopSig = map[*ssa.BasicBlock]loopSig{}
+	}
+	if old, ok := f.loopSig[b]; ok && old.effects == sig.effects && old.inputs == sig.inputs && len(old.vals) == len(sig.vals) {
+		same := true
+		for i := range sig.vals {
+			same = same && sameValue(old.vals[i], sig.vals[i])
+		}
+		if same {
+			e.fail("nontermination", "a loop iteration in "+f.fn.Name()+" left the loop state unchanged: the loop never exits on this path", pos, e.tb.True())
+			panic(pathEnd{"nontermination"})
+		}
+	}
+	f.loopSig[b] = sig
 }
 
 type Exec struct {
@@ -67,6 +105,9 @@ type Exec struct {
 	depth      int
 	unwind     int
 	unwindCut  bool // true: exceeding the unwinding limit is an assumption
+	effects    int  // number of state-changing events so far (stores, map updates, impure models, channel operations, ...)
+	stepLimit  int  // vxStepBudget: absolute instruction count at which the path is reported as not terminating (0 = off)
+	stepBudget int
 	recLimit   int
 	viol       []Violation
 	reach      map[string]bool
@@ -402,6 +443,16 @@ func (e *Exec) opaqueError(msg string) Value {
 }
 
 // pureIntrinsic: intrinsics that may run during speculative (if-conversion) evaluation.
+// stateFreeModel: exact models that neither read nor write mutable engine state (for the no-progress check)
+func stateFreeModel(name string) bool {
+	switch name {
+	case "internal/bytealg.IndexByteString", "internal/bytealg.IndexByte", "internal/bytealg.CountString",
+		"internal/bytealg.LastIndexByteString", "internal/bytealg.Count", "errors.Is", "errors.As":
+		return true
+	}
+	return false
+}
+
 func pureIntrinsic(fn *ssa.Function, name string) bool {
 	if strings.HasPrefix(fn.Name(), "vx") {
 		return true // the vx wrapper has its own whitelist
@@ -431,6 +482,7 @@ func (e *Exec) callValue(fv Value, args []Value, pos token.Pos) Value {
 		}
 		return e.callFunc(c.fn, args, c.free, pos)
 	case *Native:
+		e.effects++
 		return c.fn(e, args)
 	}
 	e.unsupported("call of %T", fv)
@@ -443,6 +495,9 @@ func (e *Exec) callFunc(fn *ssa.Function, args []Value, free []Value, pos token.
 		if e.spec > 0 && !pureIntrinsic(fn, name) {
 			// models with side effects (hash state, mutexes, pools, UF applications, ...) must not run speculatively
 			panic(specAbort{"intrinsic with side effects"})
+		}
+		if !pureIntrinsic(fn, name) && !stateFreeModel(name) {
+			e.effects++
 		}
 		if e.allocWatch > 0 && allocatingCall(name) {
 			e.allocEvent(e.eng.pos(pos) + " call of " + name)
@@ -520,6 +575,13 @@ func (e *Exec) run(f *frame) Value {
 			for k, p := range phis {
 				e.setv(f, p, vals[k])
 			}
+			if e.spec == 0 && prev != nil && len(phis) == i && b.Dominates(prev) && (len(e.loopCuts) == 0 || e.loopCuts[f.fn] == nil) {
+				pos := token.NoPos
+				if len(b.Instrs) > 0 {
+					pos = b.Instrs[len(b.Instrs)-1].Pos()
+				}
+				e.noProgress(f, b, vals, pos)
+			}
 		} else {
 			for ; i < len(b.Instrs); i++ {
 				if _, ok := b.Instrs[i].(*ssa.Phi); !ok {
@@ -536,6 +598,11 @@ func (e *Exec) run(f *frame) Value {
 		for ; i < len(b.Instrs); i++ {
 			in := b.Instrs[i]
 			e.instrs++
+			if e.stepLimit > 0 && e.instrs > e.stepLimit {
+				e.stepLimit = 0
+				e.fail("nontermination", fmt.Sprintf("more than %d SSA instructions executed since vxStepBudget on one path: the call does not terminate within the time bound", e.stepBudget), in.Pos(), e.tb.True())
+				panic(pathEnd{"nontermination"})
+			}
 			if e.instrs > e.eng.cfg.MaxInstrs {
 				e.notes = append(e.notes, "instruction budget exceeded")
 				panic(pathEnd{"budget"})
@@ -671,6 +738,7 @@ func (e *Exec) step(f *frame, in ssa.Instruction) {
 		if e.spec > 0 {
 			panic(specAbort{"store"})
 		}
+		e.effects++
 		e.store(e.val(f, x.Addr), e.val(f, x.Val), x.Pos())
 	case *ssa.Convert:
 		e.setv(f, x, e.convert(e.val(f, x.X), x.X.Type(), x.Type(), x.Pos()))
@@ -689,6 +757,7 @@ func (e *Exec) step(f *frame, in ssa.Instruction) {
 	case *ssa.Call:
 		e.setv(f, x, e.doCall(f, &x.Call, x.Pos(), x))
 	case *ssa.Defer:
+		e.effects++
 		if e.spec > 0 {
 			panic(specAbort{"defer"})
 		}
@@ -696,12 +765,14 @@ func (e *Exec) step(f *frame, in ssa.Instruction) {
 		pos := x.Pos()
 		f.defers = append(f.defers, func() { e.applyCall(fv, args, &x.Call, pos) })
 	case *ssa.RunDefers:
+		e.effects++
 		for len(f.defers) > 0 {
 			d := f.defers[len(f.defers)-1]
 			f.defers = f.defers[:len(f.defers)-1]
 			d()
 		}
 	case *ssa.Go:
+		e.effects++
 		if e.spec > 0 {
 			panic(specAbort{"go"})
 		}
@@ -732,6 +803,7 @@ func (e *Exec) step(f *frame, in ssa.Instruction) {
 		}
 		e.setv(f, x, c)
 	case *ssa.MapUpdate:
+		e.effects++
 		if e.spec > 0 {
 			panic(specAbort{"mapupdate"})
 		}
@@ -741,8 +813,10 @@ func (e *Exec) step(f *frame, in ssa.Instruction) {
 	case *ssa.Next:
 		e.setv(f, x, e.next(f, x))
 	case *ssa.Select:
+		e.effects++
 		e.setv(f, x, e.selectOp(f, x))
 	case *ssa.Send:
+		e.effects++
 		e.unsupported("channel send")
 	case *ssa.SliceToArrayPointer:
 		e.unsupported("slice to array pointer")
@@ -973,6 +1047,7 @@ func (e *Exec) unop(f *frame, x *ssa.UnOp) {
 	case token.XOR:
 		e.setv(f, x, e.tb.un(ONotBV, a.(*Term)))
 	case token.ARROW:
+		e.effects++
 		ch := a.(*ChanV)
 		if ch == nil || !ch.closed {
 			e.unsupported("blocking channel receive")
@@ -1945,22 +2020,26 @@ func (e *Exec) builtin(b *ssa.Builtin, args []Value, c *ssa.CallCommon, pos toke
 			return tb.K(64, uint64(len(x)))
 		}
 	case "copy":
+		e.effects++
 		if e.spec > 0 {
 			panic(specAbort{"copy"})
 		}
 		return e.copySlices(args[0].(*Slice), args[1], pos)
 	case "append":
+		e.effects++
 		if e.spec > 0 {
 			panic(specAbort{"append"})
 		}
 		return e.appendOp(args[0], args[1], c.Args[0].Type(), pos)
 	case "delete":
+		e.effects++
 		if e.spec > 0 {
 			panic(specAbort{"delete"})
 		}
 		e.mapDelete(args[0].(*MapV), args[1])
 		return nil
 	case "close":
+		e.effects++
 		ch := args[0].(*ChanV)
 		if ch == nil || ch.closed {
 			e.check(tb.False(), "panic", "close of nil or closed channel", pos)
